@@ -189,6 +189,85 @@ async fn server_sizes(rep: &mut Report, sizes: &[usize]) {
     h.abort();
 }
 
+// ---------------------------------------------------------------- long pauses between fragments
+
+/// Jump the clock of this (current-thread) runtime by `secs` and let every timer that became due run.
+async fn jump(secs: u64) {
+    tokio::time::sleep(Duration::from_millis(15)).await;
+    if secs > 0 {
+        tokio::time::pause();
+        tokio::time::advance(Duration::from_secs(secs)).await;
+        tokio::time::resume();
+    }
+    tokio::time::sleep(Duration::from_millis(15)).await;
+}
+
+/// A datagram whose length-prefixed encoding arrives in two pieces with a long silence between them (a slow
+/// or bursty link) is still one identical datagram — in both directions. Runs on a current-thread runtime
+/// whose clock is jumped between the pieces.
+fn fragments_with_gaps(rep: &mut Report, thorough: bool) {
+    let rt = tokio::runtime::Builder::new_current_thread().enable_all().build().unwrap();
+    let gaps: Vec<u64> = if thorough { vec![0, 1, 29, 31, 61, 125, 301, 3601] } else { vec![0, 31, 61, 301] };
+    rt.block_on(async {
+        // ---- client side: return stream
+        let local = UdpSocket::bind("127.0.0.1:0").await.unwrap();
+        let laddr = local.local_addr().unwrap();
+        let app = UdpSocket::bind("127.0.0.1:0").await.unwrap();
+        let (st, feed, mut out) = hand_stream(7);
+        let h = tokio::spawn(verif_udp_proxy_loop(local, st));
+        let hello = dgram(900, 12);
+        let _ = app.send_to(&hello, laddr).await;
+        let _ = collect_framed(&mut out, 1, 2000).await;
+        let mut k = 0u32;
+        'outer: for &gap in &gaps {
+            for cut_at in [1usize, 2, 3, 9] {
+                k += 1;
+                rep.case(Some(&format!("client return, {gap} s of silence after {cut_at} byte(s)")));
+                let back = dgram(1000 + k, 14 + k as usize % 5);
+                let fb = framed(&back);
+                let _ = feed.send(Bytes::copy_from_slice(&fb[..cut_at]));
+                jump(gap).await;
+                let _ = feed.send(Bytes::copy_from_slice(&fb[cut_at..]));
+                match recv_one(&app, 1500).await {
+                    Some((g, _)) if g == back => {}
+                    other => {
+                        rep.violation("C15:return-datagram-broken-by-pause-between-fragments", &format!("client side: a returned {}-byte datagram arriving as {cut_at} + {} stream bytes with {gap} s of silence between the two pieces reached the application as {:?} bytes", back.len(), fb.len() - cut_at, other.map(|x| x.0.len())), json!({"engine": "SEMI", "side": "client", "gap_s": gap, "cut": cut_at}));
+                        break 'outer;
+                    }
+                }
+            }
+        }
+        drop(feed);
+        h.abort();
+        // ---- server side: request stream
+        let target = UdpSocket::bind("127.0.0.1:0").await.unwrap();
+        let taddr = target.local_addr().unwrap();
+        let (st, feed, _out) = hand_stream(9);
+        let h = tokio::spawn(handle_udp_over_tcp(st));
+        let _ = feed.send(Bytes::from(initial_request(taddr)));
+        'outer2: for &gap in &gaps {
+            for cut_at in [1usize, 2, 3, 9] {
+                k += 1;
+                rep.case(Some(&format!("server request, {gap} s of silence after {cut_at} byte(s)")));
+                let d = dgram(2000 + k, 14 + k as usize % 5);
+                let fb = framed(&d);
+                let _ = feed.send(Bytes::copy_from_slice(&fb[..cut_at]));
+                jump(gap).await;
+                let _ = feed.send(Bytes::copy_from_slice(&fb[cut_at..]));
+                match recv_one(&target, 1500).await {
+                    Some((g, _)) if g == d => {}
+                    other => {
+                        rep.violation("C15:datagram-broken-by-pause-between-fragments", &format!("server side: a {}-byte datagram arriving as {cut_at} + {} stream bytes with {gap} s of silence between the two pieces reached the target as {:?} bytes", d.len(), fb.len() - cut_at, other.map(|x| x.0.len())), json!({"engine": "SEMI", "side": "server", "gap_s": gap, "cut": cut_at}));
+                        break 'outer2;
+                    }
+                }
+            }
+        }
+        drop(feed);
+        h.abort();
+    });
+}
+
 // ---------------------------------------------------------------- client side, hand-built stream
 
 async fn client_side(rep: &mut Report, sizes: &[usize], thorough: bool) {
@@ -390,7 +469,8 @@ pub fn run(tier: Tier) -> i32 {
         end_to_end(&mut rep, true).await;
     });
     drop(rt);
+    fragments_with_gaps(&mut rep, thorough);
     rep.sections.insert("sizes".into(), json!({"count": sizes.len(), "min": sizes.first(), "max": sizes.last()}));
     rep.sample(json!({"case": "server side, byte stream [initial request][len=5][..][len=1][.][len=2][..] delivered cut at [9, 14]"}));
-    rep.finish("IX/SEMI: datagram sizes (quick: boundary sizes incl. 65505..65507; thorough: every size 1..=65507) in both directions through the real server-side and client-side relay loops over real loopback UDP sockets in lock-step; every 1-cut and 2-cut split (and byte-at-a-time) of 2- and 3-datagram length-prefixed streams incl. cuts inside the initial request; end to end through create_udp_proxy and the real handler for an IPv4 and an IPv6 target; non-trivial = distinct size / cut pattern")
+    rep.finish("IX/SEMI: datagram sizes (quick: boundary sizes incl. 65505..65507; thorough: every size 1..=65507) in both directions through the real server-side and client-side relay loops over real loopback UDP sockets in lock-step; every 1-cut and 2-cut split (and byte-at-a-time) of 2- and 3-datagram length-prefixed streams incl. cuts inside the initial request; two-piece deliveries with 0..301 s (thorough ..3601 s) of silence between the pieces (clock of a current-thread runtime jumped); end to end through create_udp_proxy and the real handler for an IPv4 and an IPv6 target; non-trivial = distinct size / cut pattern")
 }
